@@ -32,6 +32,18 @@ static vh::Trip gen_io(vh::Rng& g, int n, int m, bool symmetric)
     return t;
 }
 
+// independent reading of a Matrix Market coordinate file as text: banner symmetry, size line, entry lines (1-based, value bits)
+static bool parse_mm(const char* fname, int& symm, int& M, int& N, int& nz, std::vector<long long>& lines) {
+    FILE* f = fopen(fname, "r"); if (!f) return false;
+    char buf[512]; symm = 0; bool size_seen = false; lines.clear();
+    while (fgets(buf, 512, f)) {
+        if (buf[0] == '%') { if (!strncmp(buf, "%%MatrixMarket", 14) && strstr(buf, "symmetric")) symm = 1; continue; }
+        if (!size_seen) { if (sscanf(buf, "%d %d %d", &M, &N, &nz) == 3) size_seen = true; continue; }
+        int i, j; double v; if (sscanf(buf, "%d %d %lg", &i, &j, &v) == 3) { lines.push_back(i); lines.push_back(j); lines.push_back((long long)vh::dbits(v)); }
+    }
+    fclose(f); return size_seen;
+}
+
 int main(int argc, char** argv)
 {
     MPI_Init(&argc, &argv);
@@ -81,7 +93,12 @@ int main(int argc, char** argv)
         // (1) sequential write -> sequential read, distributed read
         if (rank == 0) { CSRMatrix* A = vh::make_csr(full); write_mm(A, f1); delete A; }
         MPI_Barrier(MPI_COMM_WORLD);
-        { E.about("io/read_mm(write_mm)"); std::vector<long long> got; int gr = -1, gc = -1; if (rank == 0) { CSRMatrix* B = read_mm(f1); if (B) { got = seq_entries(B); gr = B->n_rows; gc = B->n_cols; delete B; } } emit("w-r", 1, got, gr, gc); }
+        { E.about("io/read_mm(write_mm)"); std::vector<long long> got; int gr = -1, gc = -1; if (rank == 0) { CSRMatrix* B = read_mm(f1); if (B) { got = seq_entries(B); gr = B->n_rows; gc = B->n_cols; delete B; } } emit("w-r", 1, got, gr, gc);
+          // the file itself (parsed independently) against the writer model applied to the source and the reader model applied to the file
+          bool wantf = E.want();
+          if (rank == 0 && wantf) { int sy, M, N, nz; std::vector<long long> ln; bool okf = parse_mm(f1, sy, M, N, nz, ln);
+              CSRMatrix* A = vh::make_csr(full); auto src = seq_entries(A); delete A;
+              vh::Case c("C19", "mmfile"); c.i(1).i(okf).i(sy).i(M).i(N).i(nz).vec(ln).i(n).i(m).vec(src).vec(got).i(gr).i(gc); c.write(E.out); } }
         { E.about("io/read_par_mm(write_mm)"); ParCSRMatrix* B = read_par_mm(f1); auto got = flat(G(vh::local_entries(B, false))); emit("w-pr", 2, got, B->global_num_rows, B->global_num_cols);
           // (2) distributed write -> sequential read
           E.about("io/read_mm(write_par_mm)"); write_par_mm(B, f2); MPI_Barrier(MPI_COMM_WORLD);
@@ -92,7 +109,10 @@ int main(int argc, char** argv)
             if (rank == 0) { FILE* f = fopen(f3, "w"); fprintf(f, "%%%%MatrixMarket matrix coordinate real symmetric\n%%\n%d %d %d\n", n, m, (int)t.r.size());
                 for (size_t k = 0; k < t.r.size(); k++) fprintf(f, "%d %d %.16e\n", t.r[k] + 1, t.c[k] + 1, t.v[k]); fclose(f); }
             MPI_Barrier(MPI_COMM_WORLD);
-            { E.about("io/read_mm(symmetric)"); std::vector<long long> got; int gr = -1, gc = -1; if (rank == 0) { CSRMatrix* B = read_mm(f3); if (B) { got = seq_entries(B); gr = B->n_rows; gc = B->n_cols; delete B; } } emit("sym-r", 4, got, gr, gc); }
+            { E.about("io/read_mm(symmetric)"); std::vector<long long> got; int gr = -1, gc = -1; if (rank == 0) { CSRMatrix* B = read_mm(f3); if (B) { got = seq_entries(B); gr = B->n_rows; gc = B->n_cols; delete B; } } emit("sym-r", 4, got, gr, gc);
+              bool wantf = E.want();
+              if (rank == 0 && wantf) { int sy, M, N, nz; std::vector<long long> ln; bool okf = parse_mm(f3, sy, M, N, nz, ln);
+                  vh::Case c("C19", "mmfile"); c.i(4).i(okf).i(sy).i(M).i(N).i(nz).vec(ln).i(n).i(m).vec(std::vector<long long>()).vec(got).i(gr).i(gc); c.write(E.out); } }
             { E.about("io/read_par_mm(symmetric)"); ParCSRMatrix* B = read_par_mm(f3); auto got = flat(G(vh::local_entries(B, false))); emit("sym-pr", 5, got, B->global_num_rows, B->global_num_cols); delete B; }
         }
         // (4) PETSc binary (big-endian) written by the harness: sequential reader, distributed reader (default and explicit partitions)
